@@ -298,7 +298,7 @@ static void mix_pair(uint64_t a, uint64_t b, bool is32) {
 }
 
 /* in-place accumulation (c16_table.h): fold f[0..n) into an accumulator with the checked add / mul, through a pointer parameter,
- * a size_t pointer and a struct field; the reference folds in 128-bit arithmetic, a step that does not fit is skipped */
+ * a size_t pointer and a struct field; the reference folds in 128-bit arithmetic and stops at the first step that does not fit */
 static void acc_case(uint64_t a, uint64_t b) {
     const uint64_t f[5] = {a, b, 3, b, a | 1};
     for (int op = 0; op < 2; ++op) {
